@@ -172,6 +172,7 @@ func c10(c *core.Ctx, r *core.Report) {
 	r.Floor("R10.identity", 4, "two tables + two writers")
 
 	c10load(c, r)
+	c10enforce(c, r)
 
 	// ---- R10.order
 	orderRule := func(rel, fnName, key string, first func(ast.Node) bool, later func(ast.Node) bool, okMsg, failMsg string) {
